@@ -1,0 +1,397 @@
+//go:build verif
+
+// Contracts for package packetcache, checked by /verif (gvc).  This file
+// contains no declarations; it is compiled only with the verif build tag.
+
+package packetcache
+
+//@ spec cmp16(a uint16, b uint16) int = a == b ? 0 : (((b - a) & 0x8000) != 0 ? 1 : -1)
+//@ spec invalid16(s uint16, r uint16) bool = cmp16(r, s) >= 0 && r - s > 0x100
+//@
+//@ -- view of a slot
+//@ spec elen(lam uint16) uint16 = lam & 0x7FFF
+//@ spec emark(lam uint16) bool = (lam & 0x8000) != 0
+//@
+//@ -- representation invariant of the cache
+//@ spec cwf(c *Cache) bool = len(c.entries) >= 1 && len(c.entries) <= 65535 && int(c.tail) < len(c.entries)
+//@ -- no stored length exceeds the slot buffer
+//@ spec oklam(lam uint16) bool = elen(lam) <= 1504 && (lam != 0 ==> elen(lam) != 0)
+//@ spec lens(c *Cache) bool = forall k int :: 0 <= k && k < len(c.entries) ==> oklam(c.entries[k].lengthAndMarker)
+//@
+//@ func compare
+//@   safe
+//@   inline
+//@   props C05 C06 C12
+//@   modifies nothing
+//@   ensures spec: result == cmp16(s1, s2)
+//@
+//@ func seqnoInvalid
+//@   safe
+//@   inline
+//@   props C06 C12
+//@   modifies nothing
+//@   ensures spec: result == invalid16(seqno, reference)
+//@
+//@ func (*entry).length
+//@   safe
+//@   inline
+//@   props C05 C12
+//@   requires nonnil: e != nil
+//@   modifies nothing
+//@   ensures spec: result == elen(e.lengthAndMarker)
+//@
+//@ func (*entry).marker
+//@   safe
+//@   inline
+//@   props C05 C12
+//@   requires nonnil: e != nil
+//@   modifies nothing
+//@   ensures spec: result == emark(e.lengthAndMarker)
+//@
+//@ func New
+//@   safe
+//@   props C05 C12
+//@   requires nonneg: capacity >= 0
+//@   modifies nothing
+//@   ensures too-big: capacity > 65535 ==> result == nil
+//@   ensures made: capacity <= 65535 ==> result != nil && fresh(result) && len(result.entries) == capacity && result.tail == 0 && !held(result.mu)
+//@   ensures empty: capacity <= 65535 ==> (forall k int :: 0 <= k && k < capacity ==> result.entries[k].lengthAndMarker == 0)
+//@
+//@ -- byte-exact equality of a result prefix with a slot buffer
+//@ spec samebytes(res []byte, e *entry, n int) bool = forall j int :: 0 <= j && j < n ==> res[j] == e.buf[j]
+//@
+//@ func get
+//@   safe
+//@   props C05 C12
+//@   requires room: len(result) == 0 || cap(result) >= 1504
+//@   requires lens: forall k int :: 0 <= k && k < len(entries) ==> oklam(entries[k].lengthAndMarker)
+//@   requires separate: ref(result) != ref(entries)
+//@   modifies full(result)
+//@   invariant loop 1 range: -1 <= rangeindex && rangeindex < len(entries)
+//@   invariant loop 1 none-before: forall k int :: 0 <= k && k <= rangeindex ==> entries[k].lengthAndMarker == 0 || entries[k].seqno != seqno
+//@   witness k = i
+//@   -- C05: a hit is exactly one stored slot: its seqno, length, timestamp, marker and bytes
+//@   ensures hit: result0 > 0 ==> exists k int :: 0 <= k && k < len(entries) && entries[k].seqno == seqno && entries[k].lengthAndMarker != 0
+//@        && result0 == elen(entries[k].lengthAndMarker) && result1 == entries[k].timestamp && result2 == emark(entries[k].lengthAndMarker)
+//@        && (len(result) > 0 ==> (forall j int :: 0 <= j && j < int(result0) ==> result[j] == entries[k].buf[j]))
+//@   -- C05: nothing is returned only if no slot holds that seqno (with a non-empty packet)
+//@   ensures miss: result0 == 0 ==> (forall k int :: 0 <= k && k < len(entries) ==>
+//@        entries[k].lengthAndMarker == 0 || entries[k].seqno != seqno || elen(entries[k].lengthAndMarker) == 0)
+//@   ensures first-match: forall k int :: 0 <= k && k < len(entries) && entries[k].lengthAndMarker != 0 && entries[k].seqno == seqno
+//@        && (forall q int :: 0 <= q && q < k ==> entries[q].lengthAndMarker == 0 || entries[q].seqno != seqno)
+//@        ==> result0 == elen(entries[k].lengthAndMarker)
+//@   -- C05: never padded: bytes past the returned length are untouched
+//@   ensures no-padding: forall j int :: int(result0) <= j && j < cap(result) ==> result[j] == old(result[j])
+//@
+//@ func (*Cache).Get
+//@   safe
+//@   props C05 C12
+//@   requires nonnil: cache != nil
+//@   requires unlocked: !held(cache.mu)
+//@   requires wf: cwf(cache) && lens(cache)
+//@   requires room: len(result) == 0 || cap(result) >= 1504
+//@   requires separate: ref(result) != ref(cache.entries) && ref(result) != ref(cache)
+//@   modifies full(result), held(cache.mu)
+//@   ensures unlocked: !held(cache.mu)
+//@   ensures hit: result0 > 0 ==> exists k int :: 0 <= k && k < len(cache.entries) && cache.entries[k].seqno == seqno && cache.entries[k].lengthAndMarker != 0
+//@        && result0 == elen(cache.entries[k].lengthAndMarker)
+//@        && (len(result) > 0 ==> (forall j int :: 0 <= j && j < int(result0) ==> result[j] == cache.entries[k].buf[j]))
+//@   ensures miss: result0 == 0 ==> (forall k int :: 0 <= k && k < len(cache.entries) ==>
+//@        cache.entries[k].lengthAndMarker == 0 || cache.entries[k].seqno != seqno || elen(cache.entries[k].lengthAndMarker) == 0)
+//@   ensures no-padding: forall j int :: int(result0) <= j && j < cap(result) ==> result[j] == old(result[j])
+//@
+//@ func (*Cache).GetAt
+//@   safe
+//@   props C05 C12
+//@   requires nonnil: cache != nil
+//@   requires unlocked: !held(cache.mu)
+//@   requires wf: cwf(cache) && lens(cache)
+//@   requires room: cap(result) >= 1504
+//@   requires separate: ref(result) != ref(cache.entries) && ref(result) != ref(cache)
+//@   modifies full(result), held(cache.mu)
+//@   ensures unlocked: !held(cache.mu)
+//@   -- C05: a recycled or out-of-range slot yields nothing
+//@   ensures stale: int(index) >= len(cache.entries) || cache.entries[index].seqno != seqno ==> result0 == 0
+//@   ensures hit: int(index) < len(cache.entries) && cache.entries[index].seqno == seqno ==> result0 == elen(cache.entries[index].lengthAndMarker)
+//@        && (forall j int :: 0 <= j && j < int(result0) ==> result[j] == cache.entries[index].buf[j])
+//@   ensures no-padding: forall j int :: int(result0) <= j && j < cap(result) ==> result[j] == old(result[j])
+//@
+//@ func (*Cache).Last
+//@   safe
+//@   props C05 C12
+//@   requires nonnil: cache != nil
+//@   requires unlocked: !held(cache.mu)
+//@   modifies held(cache.mu)
+//@   ensures unlocked: !held(cache.mu)
+//@   ensures spec: result1 == cache.lastValid && result0 == (cache.lastValid ? cache.last : 0)
+//@
+//@ func (*Cache).Keyframe
+//@   safe
+//@   props C05 C12
+//@   requires nonnil: cache != nil
+//@   requires unlocked: !held(cache.mu)
+//@   modifies held(cache.mu)
+//@   ensures unlocked: !held(cache.mu)
+//@   ensures spec: result1 == cache.keyframeValid && result0 == (cache.keyframeValid ? cache.keyframe : 0)
+//@
+//@ func (*Cache).Store
+//@   safe
+//@   props C05 C06 C12
+//@   requires nonnil: cache != nil
+//@   requires unlocked: !held(cache.mu)
+//@   requires wf: cwf(cache) && lens(cache)
+//@   requires size: len(buf) >= 1 && len(buf) <= 1504
+//@   requires separate: ref(buf) != ref(cache)
+//@   requires consistent: cache.received <= cache.expected
+//@   -- 2^32 packets without a statistics reset (about 50 days at 1000 packets/s) are not considered
+//@   requires counters-nowrap: cache.expected <= 0xFFFF0000
+//@   modifies cache.last, cache.cycle, cache.lastValid, cache.expected, cache.received, cache.keyframe, cache.keyframeValid,
+//@        cache.bitmap, cache.tail, cache.entries[cache.tail], held(cache.mu)
+//@   ensures unlocked: !held(cache.mu)
+//@   ensures index: result1 == old(cache.tail)
+//@   -- C05: the slot holds exactly the packet: seqno, timestamp, length, marker and every byte
+//@   ensures slot: cache.entries[old(cache.tail)].seqno == seqno && cache.entries[old(cache.tail)].timestamp == timestamp
+//@        && cache.entries[old(cache.tail)].lengthAndMarker == (uint16(len(buf)) | (marker ? 0x8000 : 0))
+//@   ensures bytes: forall j int :: 0 <= j && j < len(buf) ==> cache.entries[old(cache.tail)].buf[j] == old(buf[j])
+//@   ensures tail: cache.tail == (int(old(cache.tail)) + 1 == len(cache.entries) ? 0 : old(cache.tail) + 1)
+//@   ensures wf: cwf(cache) && same(cache.entries, old(cache.entries))
+//@   ensures lens: lens(cache)
+//@   ensures bitmap-first: result0 == cache.bitmap.first
+//@   -- C06: received never exceeds expected
+//@   ensures consistent: cache.received <= cache.expected
+//@   -- C06: the extended highest seqno never decreases unless the stream restarts (first packet, or > 256 backwards)
+//@   ensures eseqno-monotone: old(cache.lastValid) && !invalid16(seqno, old(cache.last)) && old(cache.cycle) < 0xFFFF ==>
+//@        (uint32(cache.cycle) << 16 | uint32(cache.last)) >= (uint32(old(cache.cycle)) << 16 | uint32(old(cache.last)))
+//@   ensures last-valid: cache.lastValid
+//@
+//@ func (*Cache).Expect
+//@   safe
+//@   props C06 C12
+//@   requires nonnil: cache != nil
+//@   requires unlocked: !held(cache.mu)
+//@   requires consistent: cache.received <= cache.expected
+//@   requires counters-nowrap: n <= 0x7FFFFFFF ==> int(cache.expected) + n <= 0xFFFFFFFF
+//@   modifies cache.expected, held(cache.mu)
+//@   ensures unlocked: !held(cache.mu)
+//@   ensures consistent: n <= 0x7FFFFFFF ==> cache.received <= cache.expected
+//@
+//@ func (*Cache).GetStats
+//@   safe
+//@   props C06 C12
+//@   requires nonnil: cache != nil
+//@   requires unlocked: !held(cache.mu)
+//@   requires consistent: cache.received <= cache.expected && cache.totalReceived <= cache.totalExpected
+//@   requires counters-nowrap: int(cache.totalExpected) + int(cache.expected) <= 0xFFFFFFFF
+//@   modifies cache.expected, cache.received, cache.totalExpected, cache.totalReceived, held(cache.mu)
+//@   ensures unlocked: !held(cache.mu)
+//@   -- C06: the reported statistics are self-consistent, per interval and in total
+//@   ensures interval: result.Received <= result.Expected
+//@   ensures total: result.TotalReceived <= result.TotalExpected
+//@   ensures eseqno: result.ESeqno == (uint32(old(cache.cycle)) << 16 | uint32(old(cache.last)))
+//@   ensures consistent: cache.received <= cache.expected && cache.totalReceived <= cache.totalExpected
+//@   ensures reset: reset ==> cache.expected == 0 && cache.received == 0
+//@        && cache.totalExpected == old(cache.totalExpected) + old(cache.expected) && cache.totalReceived == old(cache.totalReceived) + old(cache.received)
+//@   ensures noreset: !reset ==> cache.expected == old(cache.expected) && cache.received == old(cache.received)
+//@        && cache.totalExpected == old(cache.totalExpected) && cache.totalReceived == old(cache.totalReceived)
+//@
+//@ -- loss bitmap (C06).  A seqno s is "not missing" for the bitmap if it lies behind the window
+//@ -- (up to 2^15) or its bit is set; only seqnos inside the window with a clear bit are ever reported.
+//@ spec behind(first uint16, s uint16) bool = s != first && first - s < 0x8000
+//@ spec inwin(first uint16, bm uint32, s uint16) bool = s - first < 32 && bit(bm, s - first)
+//@ spec notmissing(first uint16, bm uint32, s uint16) bool = behind(first, s) || inwin(first, bm, s)
+//@ spec restarts(valid bool, first uint16, s uint16) bool = !valid || invalid16(s, first)
+//@
+//@ func (*bitmap).set
+//@   safe
+//@   props C06 C12
+//@   requires nonnil: bitmap != nil
+//@   modifies bitmap.valid, bitmap.first, bitmap.bitmap
+//@   ensures valid: bitmap.valid
+//@   ensures restart: old(restarts(bitmap.valid, bitmap.first, seqno)) ==> bitmap.first == seqno && bitmap.bitmap == 1
+//@   -- a seqno before the window is ignored
+//@   ensures ignores-old: !old(restarts(bitmap.valid, bitmap.first, seqno)) && cmp16(old(bitmap.first), seqno) > 0 ==>
+//@        bitmap.first == old(bitmap.first) && bitmap.bitmap == old(bitmap.bitmap)
+//@   -- C06: the packet just received is never reported missing afterwards
+//@   ensures records: notmissing(bitmap.first, bitmap.bitmap, seqno) || cmp16(old(bitmap.first), seqno) > 0
+//@   -- the window only moves forward (except on restart)
+//@   ensures forward: !old(restarts(bitmap.valid, bitmap.first, seqno)) ==> bitmap.first - old(bitmap.first) < 0x8000
+//@   -- C06: no received packet becomes missing: whatever was not missing stays so (within the 2^15 horizon)
+//@   ensures keeps: !old(restarts(bitmap.valid, bitmap.first, seqno)) ==> (forall s uint16 ::
+//@        old(notmissing(bitmap.first, bitmap.bitmap, s)) && (s == bitmap.first || behind(bitmap.first, s) || s - bitmap.first < 32) && bitmap.first - s < 0x4000 + 32
+//@        ==> notmissing(bitmap.first, bitmap.bitmap, s))
+//@   -- only the packet given is newly recorded inside the window
+//@   ensures no-spurious: !old(restarts(bitmap.valid, bitmap.first, seqno)) ==> (forall s uint16 ::
+//@        inwin(bitmap.first, bitmap.bitmap, s) ==> s == seqno || old(inwin(bitmap.first, bitmap.bitmap, s)))
+//@
+//@ spec getcount(first uint16, next uint16) uint16 = next - first > 17 ? 17 : next - first
+//@
+//@ func (*bitmap).get
+//@   safe
+//@   props C06 C12
+//@   requires nonnil: bitmap != nil
+//@   modifies bitmap.first, bitmap.bitmap
+//@   ensures nothing-due: cmp16(old(bitmap.first), next) >= 0 ==> !result0 && result2 == 0 && bitmap.first == old(bitmap.first) && bitmap.bitmap == old(bitmap.bitmap)
+//@   ensures none: !result0 ==> result2 == 0
+//@   -- the examined positions are shifted out, so no later call can report them again
+//@   ensures consumed: cmp16(old(bitmap.first), next) < 0 ==> bitmap.first == old(bitmap.first) + getcount(old(bitmap.first), next)
+//@        && bitmap.bitmap == old(bitmap.bitmap) >> getcount(old(bitmap.first), next)
+//@   -- C06: the first reported seqno was examined (so it is before next), and its bit was clear
+//@   ensures first-missing: result0 ==> result1 - old(bitmap.first) < getcount(old(bitmap.first), next) && !bit(old(bitmap.bitmap), result1 - old(bitmap.first))
+//@   -- C06: every further reported seqno was examined and its bit was clear
+//@   ensures rest-missing: result0 ==> (forall b uint16 :: b < 16 && bit(result2, b) ==>
+//@        (result1 + 1 + b) - old(bitmap.first) < getcount(old(bitmap.first), next) && !bit(old(bitmap.bitmap), (result1 + 1 + b) - old(bitmap.first)))
+//@   -- everything reported is strictly before next
+//@   ensures before-next: result0 ==> cmp16(result1, next) < 0
+//@   -- completeness of one call: an examined position with a clear bit is reported
+//@   ensures complete: forall s uint16 :: cmp16(old(bitmap.first), next) < 0 && s - old(bitmap.first) < getcount(old(bitmap.first), next)
+//@        && !bit(old(bitmap.bitmap), s - old(bitmap.first)) ==> result0 && (s == result1 || (s - result1 - 1 < 16 && bit(result2, s - result1 - 1)))
+//@
+//@ func (*Cache).BitmapGet
+//@   safe
+//@   props C06 C12
+//@   requires nonnil: cache != nil
+//@   requires unlocked: !held(cache.mu)
+//@   modifies cache.bitmap.first, cache.bitmap.bitmap, held(cache.mu)
+//@   ensures unlocked: !held(cache.mu)
+//@   ensures first-missing: result0 ==> result1 - old(cache.bitmap.first) < getcount(old(cache.bitmap.first), next) && !bit(old(cache.bitmap.bitmap), result1 - old(cache.bitmap.first))
+//@   ensures rest-missing: result0 ==> (forall b uint16 :: b < 16 && bit(result2, b) ==>
+//@        (result1 + 1 + b) - old(cache.bitmap.first) < getcount(old(cache.bitmap.first), next) && !bit(old(cache.bitmap.bitmap), (result1 + 1 + b) - old(cache.bitmap.first)))
+//@   ensures before-next: result0 ==> cmp16(result1, next) < 0
+//@   ensures none: !result0 ==> result2 == 0
+//@
+//@ -- position of the j-th newest slot (j = 0 is the slot written last) of a ring with the given tail
+//@ spec ringidx(tail int, j int, n int) int = j < tail ? tail - 1 - j : tail + n - 1 - j
+//@
+//@ func (*Cache).resize
+//@   ematch
+//@   safe
+//@   props C05 C12
+//@   requires nonnil: cache != nil
+//@   requires wf: cwf(cache)
+//@   requires lens: lens(cache)
+//@   requires capacity: 1 <= capacity && capacity <= 65535
+//@   modifies cache.tail, cache.entries
+//@   ensures wf: cwf(cache) && len(cache.entries) == capacity
+//@   ensures same-size: len(old(cache.entries)) == capacity ==> same(cache.entries, old(cache.entries)) && cache.tail == old(cache.tail)
+//@   ensures new-array: len(old(cache.entries)) != capacity ==> fresh(cache.entries)
+//@   -- C05: the newest min(old, new) packets survive, in ring order, slot by slot (seqno, length+marker, timestamp, bytes)
+//@   -- C05: what each branch copies, slot by slot (seqno, length+marker, timestamp, bytes): the newest min(old, new)
+//@   --      packets survive; nothing is mixed, truncated or padded
+//@   ensures copy-grow-low: capacity > len(old(cache.entries)) ==> (forall k int :: 0 <= k && k < int(old(cache.tail)) ==>
+//@        cache.entries[k].seqno == old(cache.entries[k].seqno) && cache.entries[k].lengthAndMarker == old(cache.entries[k].lengthAndMarker)
+//@        && cache.entries[k].timestamp == old(cache.entries[k].timestamp))
+//@   ensures copy-bytes-grow-low: capacity > len(old(cache.entries)) ==> (forall k int, b int :: 0 <= k && k < int(old(cache.tail)) && 0 <= b && b < 1504 ==>
+//@        cache.entries[k].buf[b] == old(cache.entries[k].buf[b]))
+//@   ensures copy-grow-high: capacity > len(old(cache.entries)) ==> (forall k int :: int(old(cache.tail)) + capacity - len(old(cache.entries)) <= k && k < capacity ==>
+//@        cache.entries[k].seqno == old(cache.entries[k - (capacity - len(cache.entries))].seqno) && cache.entries[k].lengthAndMarker == old(cache.entries[k - (capacity - len(cache.entries))].lengthAndMarker)
+//@        && cache.entries[k].timestamp == old(cache.entries[k - (capacity - len(cache.entries))].timestamp))
+//@   ensures copy-bytes-grow-high: capacity > len(old(cache.entries)) ==> (forall k int, b int :: int(old(cache.tail)) + capacity - len(old(cache.entries)) <= k && k < capacity && 0 <= b && b < 1504 ==>
+//@        cache.entries[k].buf[b] == old(cache.entries[k - (capacity - len(cache.entries))].buf[b]))
+//@   ensures copy-shrink-low: capacity < len(old(cache.entries)) && capacity > int(old(cache.tail)) ==> (forall k int :: 0 <= k && k < int(old(cache.tail)) ==>
+//@        cache.entries[k].seqno == old(cache.entries[k].seqno) && cache.entries[k].lengthAndMarker == old(cache.entries[k].lengthAndMarker)
+//@        && cache.entries[k].timestamp == old(cache.entries[k].timestamp))
+//@   ensures copy-bytes-shrink-low: capacity < len(old(cache.entries)) && capacity > int(old(cache.tail)) ==> (forall k int, b int :: 0 <= k && k < int(old(cache.tail)) && 0 <= b && b < 1504 ==>
+//@        cache.entries[k].buf[b] == old(cache.entries[k].buf[b]))
+//@   ensures copy-shrink-high: capacity < len(old(cache.entries)) && capacity > int(old(cache.tail)) ==> (forall k int :: int(old(cache.tail)) <= k && k < capacity ==>
+//@        cache.entries[k].seqno == old(cache.entries[k + len(old(cache.entries)) - capacity].seqno) && cache.entries[k].lengthAndMarker == old(cache.entries[k + len(old(cache.entries)) - capacity].lengthAndMarker)
+//@        && cache.entries[k].timestamp == old(cache.entries[k + len(old(cache.entries)) - capacity].timestamp))
+//@   ensures copy-bytes-shrink-high: capacity < len(old(cache.entries)) && capacity > int(old(cache.tail)) ==> (forall k int, b int :: int(old(cache.tail)) <= k && k < capacity && 0 <= b && b < 1504 ==>
+//@        cache.entries[k].buf[b] == old(cache.entries[k + len(old(cache.entries)) - capacity].buf[b]))
+//@   ensures copy-below-tail: capacity < len(old(cache.entries)) && capacity <= int(old(cache.tail)) ==> (forall k int :: 0 <= k && k < capacity ==>
+//@        cache.entries[k].seqno == old(cache.entries[k + int(old(cache.tail)) - capacity].seqno) && cache.entries[k].lengthAndMarker == old(cache.entries[k + int(old(cache.tail)) - capacity].lengthAndMarker)
+//@        && cache.entries[k].timestamp == old(cache.entries[k + int(old(cache.tail)) - capacity].timestamp))
+//@   ensures copy-bytes-below-tail: capacity < len(old(cache.entries)) && capacity <= int(old(cache.tail)) ==> (forall k int, b int :: 0 <= k && k < capacity && 0 <= b && b < 1504 ==>
+//@        cache.entries[k].buf[b] == old(cache.entries[k + int(old(cache.tail)) - capacity].buf[b]))
+//@   ensures below-tail-resets: capacity < len(old(cache.entries)) && capacity <= int(old(cache.tail)) ==> cache.tail == 0
+//@   -- the same facts phrased on ring positions (j-th newest packet); attempted, see /verif/stretch.txt
+//@   ensures ring-seqno-grow: capacity > len(old(cache.entries)) ==> (forall j int :: 0 <= j && j < min(len(old(cache.entries)), capacity) ==>
+//@        cache.entries[ringidx(int(cache.tail), j, capacity)].seqno == old(cache.entries[ringidx(int(cache.tail), j, len(cache.entries))].seqno))
+//@   ensures ring-lam-grow: capacity > len(old(cache.entries)) ==> (forall j int :: 0 <= j && j < min(len(old(cache.entries)), capacity) ==>
+//@        cache.entries[ringidx(int(cache.tail), j, capacity)].lengthAndMarker == old(cache.entries[ringidx(int(cache.tail), j, len(cache.entries))].lengthAndMarker))
+//@   ensures ring-timestamp-grow: capacity > len(old(cache.entries)) ==> (forall j int :: 0 <= j && j < min(len(old(cache.entries)), capacity) ==>
+//@        cache.entries[ringidx(int(cache.tail), j, capacity)].timestamp == old(cache.entries[ringidx(int(cache.tail), j, len(cache.entries))].timestamp))
+//@   ensures ring-bytes-grow: capacity > len(old(cache.entries)) ==> (forall j int, b int :: 0 <= j && j < min(len(old(cache.entries)), capacity) && 0 <= b && b < 1504 ==>
+//@        cache.entries[ringidx(int(cache.tail), j, capacity)].buf[b] == old(cache.entries[ringidx(int(cache.tail), j, len(cache.entries))].buf[b]))
+//@   ensures ring-seqno-shrink: capacity < len(old(cache.entries)) && capacity > int(old(cache.tail)) ==> (forall j int :: 0 <= j && j < min(len(old(cache.entries)), capacity) ==>
+//@        cache.entries[ringidx(int(cache.tail), j, capacity)].seqno == old(cache.entries[ringidx(int(cache.tail), j, len(cache.entries))].seqno))
+//@   ensures ring-lam-shrink: capacity < len(old(cache.entries)) && capacity > int(old(cache.tail)) ==> (forall j int :: 0 <= j && j < min(len(old(cache.entries)), capacity) ==>
+//@        cache.entries[ringidx(int(cache.tail), j, capacity)].lengthAndMarker == old(cache.entries[ringidx(int(cache.tail), j, len(cache.entries))].lengthAndMarker))
+//@   ensures ring-timestamp-shrink: capacity < len(old(cache.entries)) && capacity > int(old(cache.tail)) ==> (forall j int :: 0 <= j && j < min(len(old(cache.entries)), capacity) ==>
+//@        cache.entries[ringidx(int(cache.tail), j, capacity)].timestamp == old(cache.entries[ringidx(int(cache.tail), j, len(cache.entries))].timestamp))
+//@   ensures ring-bytes-shrink: capacity < len(old(cache.entries)) && capacity > int(old(cache.tail)) ==> (forall j int, b int :: 0 <= j && j < min(len(old(cache.entries)), capacity) && 0 <= b && b < 1504 ==>
+//@        cache.entries[ringidx(int(cache.tail), j, capacity)].buf[b] == old(cache.entries[ringidx(int(cache.tail), j, len(cache.entries))].buf[b]))
+//@   ensures ring-seqno-shrink-below-tail: capacity <= int(old(cache.tail)) ==> (forall j int :: 0 <= j && j < min(len(old(cache.entries)), capacity) ==>
+//@        cache.entries[ringidx(int(cache.tail), j, capacity)].seqno == old(cache.entries[ringidx(int(cache.tail), j, len(cache.entries))].seqno))
+//@   ensures ring-lam-shrink-below-tail: capacity <= int(old(cache.tail)) ==> (forall j int :: 0 <= j && j < min(len(old(cache.entries)), capacity) ==>
+//@        cache.entries[ringidx(int(cache.tail), j, capacity)].lengthAndMarker == old(cache.entries[ringidx(int(cache.tail), j, len(cache.entries))].lengthAndMarker))
+//@   ensures ring-timestamp-shrink-below-tail: capacity <= int(old(cache.tail)) ==> (forall j int :: 0 <= j && j < min(len(old(cache.entries)), capacity) ==>
+//@        cache.entries[ringidx(int(cache.tail), j, capacity)].timestamp == old(cache.entries[ringidx(int(cache.tail), j, len(cache.entries))].timestamp))
+//@   ensures ring-bytes-shrink-below-tail: capacity <= int(old(cache.tail)) ==> (forall j int, b int :: 0 <= j && j < min(len(old(cache.entries)), capacity) && 0 <= b && b < 1504 ==>
+//@        cache.entries[ringidx(int(cache.tail), j, capacity)].buf[b] == old(cache.entries[ringidx(int(cache.tail), j, len(cache.entries))].buf[b]))
+//@   -- growing, or shrinking above the tail, keeps the indices handed to writers valid
+//@   ensures indices-kept: capacity > int(old(cache.tail)) ==> cache.tail == old(cache.tail)
+//@   ensures indices-kept-slots: capacity > int(old(cache.tail)) ==> (forall k int :: 0 <= k && k < int(old(cache.tail)) ==>
+//@        cache.entries[k].seqno == old(cache.entries[k].seqno) && cache.entries[k].lengthAndMarker == old(cache.entries[k].lengthAndMarker))
+//@   -- slots that hold no old packet are empty
+//@   ensures rest-empty: len(old(cache.entries)) < capacity ==> (forall k int :: int(cache.tail) <= k && k < int(cache.tail) + capacity - len(old(cache.entries)) ==>
+//@        cache.entries[k].lengthAndMarker == 0)
+//@   uses lens-grow: copy-grow rest-empty wf
+//@   ensures lens-grow: capacity > len(old(cache.entries)) ==> lens(cache)
+//@   uses lens-shrink: copy-shrink wf
+//@   ensures lens-shrink: capacity < len(old(cache.entries)) && capacity > int(old(cache.tail)) ==> lens(cache)
+//@   uses lens-below: copy-below wf
+//@   ensures lens-below: capacity < len(old(cache.entries)) && capacity <= int(old(cache.tail)) ==> lens(cache)
+//@   ensures lens-same: capacity == len(old(cache.entries)) ==> lens(cache)
+//@   uses lens: lens-
+//@   ensures lens: lens(cache)
+//@
+//@ func (*Cache).Resize
+//@   safe
+//@   props C05 C12
+//@   requires nonnil: cache != nil
+//@   requires unlocked: !held(cache.mu)
+//@   requires wf: cwf(cache) && lens(cache)
+//@   requires capacity: 1 <= capacity && capacity <= 65535
+//@   modifies cache.tail, cache.entries, held(cache.mu)
+//@   ensures unlocked: !held(cache.mu)
+//@   ensures wf: cwf(cache) && len(cache.entries) == capacity && lens(cache)
+//@   ensures ring-seqno: forall j int :: 0 <= j && j < min(len(old(cache.entries)), capacity) ==>
+//@        cache.entries[ringidx(int(cache.tail), j, capacity)].seqno == old(cache.entries[ringidx(int(cache.tail), j, len(cache.entries))].seqno)
+//@
+//@ func (*Cache).ResizeCond
+//@   safe
+//@   props C05 C12
+//@   requires nonnil: cache != nil
+//@   requires unlocked: !held(cache.mu)
+//@   requires wf: cwf(cache) && lens(cache)
+//@   requires capacity: 1 <= capacity && capacity <= 65535
+//@   modifies cache.tail, cache.entries, held(cache.mu)
+//@   ensures unlocked: !held(cache.mu)
+//@   ensures wf: cwf(cache) && lens(cache)
+//@   ensures declined: !result ==> same(cache.entries, old(cache.entries)) && cache.tail == old(cache.tail)
+//@   ensures resized: result ==> len(cache.entries) == capacity
+//@   -- ResizeCond never invalidates the indices of stored packets below the tail
+//@   ensures indices-kept: cache.tail == old(cache.tail) || (result && int(old(cache.tail)) == capacity)
+//@
+//@ func ToBitmap
+//@   safe
+//@   ematch
+//@   props C06 C12
+//@   requires nonempty: len(seqnos) >= 1
+//@   modifies nothing
+//@   invariant loop 1 suffix: suffixof(remain, seqnos, len(seqnos) - len(remain)) && 0 <= len(remain) && len(remain) <= len(seqnos) - 1
+//@   invariant loop 1 first: first == seqnos[0]
+//@   invariant loop 1 consumed-covered: forall q int :: 1 <= q && q < len(seqnos) - len(remain) ==>
+//@        seqnos[q] - first - 1 < 16 && bit(bitmap, seqnos[q] - first - 1)
+//@   invariant loop 1 bits-sound: forall b uint16 :: b < 16 && bit(bitmap, b) ==>
+//@        (exists q int :: 1 <= q && q < len(seqnos) - len(remain) && seqnos[q] == first + 1 + b)
+//@   ensures first: first == seqnos[0]
+//@   -- the result splits the list: a consumed prefix and the returned remainder, nothing lost or reordered
+//@   ensures suffix: suffixof(remain, seqnos, len(seqnos) - len(remain)) && len(remain) <= len(seqnos) - 1
+//@   -- C06: every consumed seqno is encoded (it is first, or its bit is set)
+//@   ensures consumed-covered: forall q int :: 1 <= q && q < len(seqnos) - len(remain) ==>
+//@        seqnos[q] - first - 1 < 16 && bit(bitmap, seqnos[q] - first - 1)
+//@   -- C06: every set bit stands for a seqno of the list (nothing that was not asked for is NACKed)
+//@   ensures bits-sound: forall b uint16 :: b < 16 && bit(bitmap, b) ==>
+//@        (exists q int :: 1 <= q && q < len(seqnos) - len(remain) && seqnos[q] == first + 1 + b)
+//@   ensures stops-at-uncoverable: len(remain) > 0 ==> remain[0] - first - 1 >= 16
